@@ -327,6 +327,10 @@ fn main() -> ExitCode {
                 };
                 let mut seq = gen_seq_case(&mut rng, size, None);
                 seq.hasher = (0, rng.next());
+                if seq.index == gen::IndexKind::Far {
+                    seq.index = gen::IndexKind::Window;
+                }
+                gen::maybe_reverse_empty(&mut rng, &mut seq);
                 let with = props::c07::capture_exec(&seq, true, simenv::Sched::Never);
                 let oldc = simenv::counted(&seq.old);
                 let newc = simenv::counted(&seq.new);
